@@ -161,14 +161,14 @@ PROPS["C01"] = dict(
 PROPS["C03"] = dict(
     module="Grenad.Props.C03",
     streams={"cursor": (960, 28800), "exh": (2, 72)},
-    rules={"ops": ["c", "file"], "fingerprint": True},
+    rules={"ops": ["c", "file"], "fingerprint": "thorough"},
 )
 
 PROPS["C02"] = dict(module="Grenad.Props.C02", streams={"seek": (640, 19200), "edge": (64, 640)}, rules={"ops": ["c", "file"]})
 PROPS["C04"] = dict(module="Grenad.Props.C04", streams={"iter": (640, 19200), "edge": (64, 640)}, rules={"ops": ["range", "file"]})
 PROPS["C05"] = dict(module="Grenad.Props.C05", streams={"iter": (640, 19200), "edge": (64, 640)}, rules={"ops": ["prefix", "file"]})
 PROPS["C06"] = dict(module="Grenad.Props.C06", streams={"merge": (1280, 38400)}, rules={"ops": ["merge", "mergew"], "calls": True})
-PROPS["C07"] = dict(module="Grenad.Props.C07", streams={"sorter": (960, 28800)}, rules={"ops": ["sfinish"], "calls": True})
+PROPS["C07"] = dict(module="Grenad.Props.C07", streams={"sorter": (960, 28800)}, rules={"ops": ["sfinish"], "calls": "thorough"})
 PROPS["C08"] = dict(module="Grenad.Props.C08", streams={"sorter": (960, 28800)}, rules={"ops": ["sins", "snew"], "sorter_bounds": True})
 PROPS["C09"] = dict(extra=extra_c09, module="Grenad.Props.C09", streams={"write": (640, 19200), "edge": (64, 640)}, rules={"ops": ["finish", "interop", "file"], "blocks": True, "finish_must_succeed": True})
 PROPS["C10"] = dict(module="Grenad.Props.C10", streams={"v1": (480, 14400)}, rules={"ops": ["file", "c", "range", "prefix"]})
